@@ -64,6 +64,9 @@ func runReelectCase(o *hx.Out, p params) (string, int64) {
 		rf = 3
 	}
 	g := &wgen{r: r.Fork()}
+	// (no session records here: a CreateSession whose write is applied while NewTerm closes the session manager
+	// registers its session afterwards; such a session outlives the controller and its expiry, minutes later, lists
+	// keys through a closed controller - lc.db == nil in a goroutine nobody can recover)
 	before := 1 + r.Intn(4)
 	after := 1 + r.Intn(3)
 	flushAfter := r.Bool()
@@ -91,7 +94,7 @@ func runReelectCase(o *hx.Out, p params) (string, int64) {
 		}
 	}
 	for i := 0; i < before; i++ {
-		do(step{kind: "W", req: g.next(cnt)})
+		do(step{kind: "W", req: plainWrite(g, cnt)})
 	}
 	do(step{kind: "Q"})
 
@@ -126,17 +129,17 @@ func runReelectCase(o *hx.Out, p params) (string, int64) {
 			// already readable by the follower cursors although the leader has not advanced its head to x,
 			// so the followers can acknowledge x before the leader processes its own sync completion
 			x += 2
-			do(step{kind: "W", req: g.next(cnt)})
+			do(step{kind: "W", req: plainWrite(g, cnt)})
 			waitLive(n, stepTimeout, func() bool { return n.g.waitArrived(x-2, time.Millisecond) })
-			do(step{kind: "W", req: g.next(cnt)})
-			do(step{kind: "W", req: g.next(cnt)})
+			do(step{kind: "W", req: plainWrite(g, cnt)})
+			do(step{kind: "W", req: plainWrite(g, cnt)})
 			do(step{kind: "S", upto: x - 2})
 			ackAll(x - 2)
 			do(step{kind: "S", upto: x - 1})
 			ackAll(x - 1)
 			ackAll(x)
 		} else {
-			do(step{kind: "W", req: g.next(cnt)})
+			do(step{kind: "W", req: plainWrite(g, cnt)})
 		}
 		pk.mu.Lock()
 		pk.arm = true
@@ -217,7 +220,7 @@ func runReelectCase(o *hx.Out, p params) (string, int64) {
 		// more writes in the new term: they are appended, but the WAL's sync goroutine is the one that
 		// carries the parked application, so they complete only after it has been released
 		for i := 0; i < after && !n.clk.isCrashed(); i++ {
-			lr.write(g.next(cnt))
+			lr.write(plainWrite(g, cnt))
 		}
 		if flushAfter && !n.clk.isCrashed() {
 			n.kvf.current().KV.Flush()
